@@ -250,32 +250,32 @@ type MatchRec struct {
 }
 
 type Observed struct {
-	Matches        []MatchRec
-	Read           uint64
-	Matched        uint64
-	Ignored        uint64
-	ReadErrors     int
-	Tap            []TapEvent
-	ContinuityErr  string
-	MatchBatches   int
-	WorkersUsed    int
-	InterleaveSig  string
-	TimerFlushes   int // batches shorter than the batch size that were not the last batch of their source
-	Panic          string
-	TimedOut       bool
-	HookHits       map[string]int64
-	ActiveAtEnd    int
+	Matches       []MatchRec
+	Read          uint64
+	Matched       uint64
+	Ignored       uint64
+	ReadErrors    int
+	Tap           []TapEvent
+	ContinuityErr string
+	MatchBatches  int
+	WorkersUsed   int
+	InterleaveSig string
+	TimerFlushes  int // batches shorter than the batch size that were not the last batch of their source
+	Panic         string
+	TimedOut      bool
+	HookHits      map[string]int64
+	ActiveAtEnd   int
 }
 
 // delay matcher ----------------------------------------------------------------
 
 type delayFactory struct {
-	inner   matchers.Factory
-	seed    uint64
-	every   int
-	maxUs   int
-	insts   []*delayMatcher
-	mu      sync.Mutex
+	inner matchers.Factory
+	seed  uint64
+	every int
+	maxUs int
+	insts []*delayMatcher
+	mu    sync.Mutex
 }
 
 type delayMatcher struct {
